@@ -244,11 +244,14 @@ def run(rep):
                        "references are resolved in textual order and loading stops at the first Unknown object "
                        "(the driver checks the order against the recorded provider calls)",
                        "the registered provider is a subclass of FQN that only records call and result"]
-    for cfg in (["MC_Fqn.cfg"] if quick else ["MC_Fqn_Thorough.cfg"]):
+    skip_mc = bool(os.environ.get("VT_SKIP_MC"))      # harness debugging only; recorded in the evidence
+    if skip_mc:
+        rep.note("VT_SKIP_MC set: (M) skipped")
+    for cfg in ([] if skip_mc else ["MC_Fqn.cfg"] if quick else ["MC_Fqn_Thorough.cfg"]):
         r = tlc.model_check("MC_Fqn", cfg=cfg, timeout=3000)
         tlc.require_ok(r, cfg)
         rep.add_mc(cfg[:-4], r, ["C10"])
-    if not quick:
+    if not quick and not skip_mc:
         for cfg in ("MC_Fqn_P.cfg", "MC_Fqn_R.cfg"):
             r = tlc.model_check("MC_Fqn", cfg=cfg, timeout=3000)
             if r.violated != "C10":
